@@ -1,3 +1,4 @@
+//go:build verif
 // +build verif
 
 package storage
@@ -13,6 +14,7 @@ import (
 	"github.com/marekgalovic/anndb/index"
 	pb "github.com/marekgalovic/anndb/protobuf"
 	"github.com/marekgalovic/anndb/storage/raft"
+	"github.com/marekgalovic/anndb/storage/wal"
 	"github.com/marekgalovic/anndb/utils"
 
 	badger "github.com/dgraph-io/badger/v2"
@@ -201,9 +203,11 @@ func (this *Dataset) VerifSetClients(nodeId uint64, search pb.SearchClient, dm p
 }
 
 // VerifPartitionAt wraps the i-th partition (catalogue order) of a dataset.
-func (this *Dataset) VerifPartitionAt(i int) *VerifPartition { return &VerifPartition{this.partitions[i]} }
-func (this *Dataset) VerifPartitionCount() int               { return len(this.partitions) }
-func (this *Dataset) VerifId() uuid.UUID                     { return this.id }
+func (this *Dataset) VerifPartitionAt(i int) *VerifPartition {
+	return &VerifPartition{this.partitions[i]}
+}
+func (this *Dataset) VerifPartitionCount() int { return len(this.partitions) }
+func (this *Dataset) VerifId() uuid.UUID       { return this.id }
 
 func (v *VerifPartition) Id() uuid.UUID     { return v.p.id }
 func (v *VerifPartition) NodeIds() []uint64 { return append([]uint64{}, v.p.nodeIds()...) }
@@ -270,4 +274,15 @@ func (this *Dataset) VerifDropClients(nodeId uint64) {
 	this.dataManagerClientsMu.Lock()
 	delete(this.dataManagerClients, nodeId)
 	this.dataManagerClientsMu.Unlock()
+}
+
+// VerifWrapWAL, when set, wraps the log store of every partition created afterwards (crash points,
+// durable-state observation).
+var VerifWrapWAL func(id uuid.UUID, w wal.WAL) wal.WAL
+
+func verifWrapWAL(id uuid.UUID, w wal.WAL) wal.WAL {
+	if VerifWrapWAL != nil {
+		return VerifWrapWAL(id, w)
+	}
+	return w
 }
